@@ -100,8 +100,7 @@ def make_case_db(scheme, cfg, profile, rnd):
 
 
 def positions(res, exp):
-    got = list(res) if not isinstance(res, (set, frozenset)) else sorted(res, key=lambda x: exp.index(x) if x in exp else -1)
-    return sc.result_positions(got, exp)
+    return sc.result_positions(sc.ordered(res, exp), exp)
 
 
 def run_history(job):
